@@ -46,7 +46,7 @@ var noEffectPkgs = map[string]bool{
 	"google.golang.org/grpc/status": true, "google.golang.org/grpc/codes": true, "google.golang.org/grpc/peer": true, "bytes": true, "math/big": true,
 	"os": true, "log": true, "slices": true, "maps": true, "cmp": true, "net": true, "encoding/base64": true, "encoding/hex": true,
 	"google.golang.org/protobuf/proto": true, "google.golang.org/protobuf/encoding/prototext": true, "google.golang.org/protobuf/encoding/protojson": true,
-	"github.com/AlekSi/pointer": true, "math/rand": true, "reflect": true, "golang.org/x/sync/semaphore": true, "runtime": true, "encoding/json": true,
+	"github.com/AlekSi/pointer": true, "google.golang.org/protobuf/types/known/anypb": true, "math/rand": true, "reflect": true, "golang.org/x/sync/semaphore": true, "runtime": true, "encoding/json": true,
 }
 
 // functions in those packages that do write through their arguments (not effect free)
